@@ -44,30 +44,44 @@ func (r Ring) Neg(p1, p2 Poly) {
 	}
 }
 
+// rnsScalarLenQ returns the number of residues that an RNS scalar of the ring stores for the moduli of Q:
+// one per modulus of the whole moduli chain of RingQ, whatever the level of the ring, so that a scalar
+// computed with the ring at its maximum level can be used with any lower level view of it (the residues
+// modulo the moduli of P always start at this index). It is zero for a ring without RingQ.
+func (r Ring) rnsScalarLenQ() int {
+	if r.RingQ == nil {
+		return 0
+	}
+	return r.RingQ.ModuliChainLength()
+}
+
 // NewRNSScalar creates a new Scalar value (i.e., a degree-0 polynomial) in the RingQP.
+// The scalar stores one residue per modulus of the moduli chain of Q followed by one residue
+// per modulus of the moduli chain of P, whatever the level of the ring.
 func (r Ring) NewRNSScalar() ring.RNSScalar {
-	modlen := r.RingQ.ModuliChainLength()
+	modlen := r.rnsScalarLenQ()
 	if r.RingP != nil {
 		modlen += r.RingP.ModuliChainLength()
 	}
 	return make(ring.RNSScalar, modlen)
 }
 
-// NewRNSScalarFromUInt64 creates a new Scalar in the RingQP initialized with value v.
+// NewRNSScalarFromUInt64 creates a new Scalar in the RingQP initialized with value v
+// (layout of [Ring.NewRNSScalar]; the residues above the level of the ring are zero).
 func (r Ring) NewRNSScalarFromUInt64(v uint64) ring.RNSScalar {
-	var scalarQ, scalarP []uint64
+	rns := r.NewRNSScalar()
 	if r.RingQ != nil {
-		scalarQ = r.RingQ.NewRNSScalarFromUInt64(v)
+		copy(rns, r.RingQ.NewRNSScalarFromUInt64(v))
 	}
 	if r.RingP != nil {
-		scalarP = r.RingP.NewRNSScalarFromUInt64(v)
+		copy(rns[r.rnsScalarLenQ():], r.RingP.NewRNSScalarFromUInt64(v))
 	}
-	return append(scalarQ, scalarP...)
+	return rns
 }
 
 // SubRNSScalar subtracts s2 to s1 and stores the result in sout.
 func (r Ring) SubRNSScalar(s1, s2, sout ring.RNSScalar) {
-	qlen := r.RingQ.ModuliChainLength()
+	qlen := r.rnsScalarLenQ()
 	if r.RingQ != nil {
 		r.RingQ.SubRNSScalar(s1[:qlen], s2[:qlen], sout[:qlen])
 	}
@@ -79,7 +93,7 @@ func (r Ring) SubRNSScalar(s1, s2, sout ring.RNSScalar) {
 
 // MulRNSScalar multiplies s1 and s2 and stores the result in sout.
 func (r Ring) MulRNSScalar(s1, s2, sout ring.RNSScalar) {
-	qlen := r.RingQ.ModuliChainLength()
+	qlen := r.rnsScalarLenQ()
 	if r.RingQ != nil {
 		r.RingQ.MulRNSScalar(s1[:qlen], s2[:qlen], sout[:qlen])
 	}
@@ -242,7 +256,7 @@ func (r Ring) MulCoeffsMontgomeryThenAdd(p1, p2, p3 Poly) {
 // MulRNSScalarMontgomery multiplies p with a scalar value expressed in the CRT decomposition.
 // It assumes the scalar decomposition to be in Montgomery form.
 func (r Ring) MulRNSScalarMontgomery(p Poly, scalar []uint64, pOut Poly) {
-	scalarQ, scalarP := scalar[:r.RingQ.ModuliChainLength()], scalar[r.RingQ.ModuliChainLength():]
+	scalarQ, scalarP := scalar[:r.rnsScalarLenQ()], scalar[r.rnsScalarLenQ():]
 	if r.RingQ != nil {
 		r.RingQ.MulRNSScalarMontgomery(p.Q, scalarQ, pOut.Q)
 	}
@@ -254,7 +268,7 @@ func (r Ring) MulRNSScalarMontgomery(p Poly, scalar []uint64, pOut Poly) {
 // Inverse computes the modular inverse of a scalar a expressed in a CRT decomposition.
 // The inversion is done in-place and assumes that a is in Montgomery form.
 func (r Ring) Inverse(scalar ring.RNSScalar) {
-	scalarQ, scalarP := scalar[:r.RingQ.ModuliChainLength()], scalar[r.RingQ.ModuliChainLength():]
+	scalarQ, scalarP := scalar[:r.rnsScalarLenQ()], scalar[r.rnsScalarLenQ():]
 	if r.RingQ != nil {
 		r.RingQ.Inverse(scalarQ)
 	}
